@@ -33,7 +33,10 @@ LEVEL_TEXT = ("Coq theorems over an executable model of the haplotype-block code
               "scaling, the six latent functions; all four copies of the haplotype-matrix builder) are regenerated on every run into "
               "Gen/C18_Kernel.v; the code composed from them (g_*) is proved equal to the hand model and the apportionment, cover-once/"
               "monotone, run-length, conservation (four builders) and OHV-problem theorems are restated about the generated code itself, so a "
-              "changed expression breaks Props/C18.vo independently of the sampled cases.")
+              "changed expression breaks Props/C18.vo independently of the sampled cases. "
+              "Every designated parent counts: the OHV over a parent tuple is defined, at least the OHV over any tuple drawn from the same "
+              "individuals (in particular its first and last parent only), equal for tuples designating the same set, and strictly larger in a "
+              "population whose middle parent alone holds the best block (Proofs/C18_Parents.v).")
 LEVEL_NOTE = ("trusted: Coq kernel + vm_compute, PrimFloat primitives + FloatAxioms specs, classical reals via Flocq (binary64 order only); "
               "numpy.empty is instrumented by the driver to return NaN/-1 filled arrays so that never-written entries are observable (modelled "
               "as None); block values, OHV/OPV sums are compared as exact rationals on dyadic grids (BLAS/numpy summation order not modelled); "
@@ -56,6 +59,12 @@ RULE = ("case = (kind helpers|haplomat|ohv{Subset,Real,Integer,Binary via the se
         "in-place input changes; _calc_ohvmat with its own ploidy argument; fixed cases: one block more than markers in every builder, 280 "
         "and 140 blocks (labels beyond int8/uint8), 1081 crosses (> the factory's chunk of 1024); the entry-point table ENTRY/SKIPPED/PARAMS is "
         "compared with the modules by introspection on every run (fail closed); "
+        "PLANTED populations, systematically over nparent 1..4 x unique_parents both ways x the four OHV encodings (and selections of 1..4 "
+        "individuals, rotated / reversed / with a repeated member, for OPV and the genotype builder with 1..4 founders): all copies share a base "
+        "haplotype and each individual alone carries the favourable allele of one marker of 'its' block, so the first, every MIDDLE and the last "
+        "parent each alone hold the best block somewhere; _calc_ohvmat on the same matrix with chunk sizes None,1,2,3,5,7,1024; the predicate "
+        "enumerates ALL doubled haploids assembled block by block from the phases of the designated parents (from genotypes and effects alone) "
+        "on small cases: none exceeds the OHV / -OPV and one attains it; random OHV cases also draw nparent from 1..4; "
         "non-trivial = >= 3 markers, >= 2 blocks requested, >= 2 labels used; distinct by SHA-256 of the case")
 TRUSTED = ["numpy.empty instrumented (driver only) so that unwritten entries are visible as NaN / -1",
            "binary64 sums of 0/1 genotypes times effects k/2^8 (|k/2^8| <= 16) are exact: compared as exact rationals",
@@ -180,7 +189,7 @@ def _one(rng, kind):
             case["taxa_order"] = order                             # positions of the n + extra taxa in the big matrix
     if kind == "ohv":
         case["cls"] = rng.choice(["Subset", "Subset", "Real", "Integer", "Binary"])
-        case["nparent"] = rng.choice([1, 2, 2, 2, 3]); case["uniq"] = rng.random() < 0.5
+        case["nparent"] = rng.choice([1, 2, 2, 3, 3, 4]); case["uniq"] = rng.random() < 0.5
         if case["uniq"] and case["nparent"] > n: case["nparent"] = n
         case["mem"] = rng.choice([None, 1, 2, 3, 1024])
         ncfg = len(_xmap(n, case["nparent"], case["uniq"]))
@@ -222,6 +231,75 @@ def _ohv_x(rng, cls, ncfg, ncross):
 def _xmap(n, k, uniq):
     return [list(c) for c in (itertools.combinations(range(n), k) if uniq else itertools.combinations_with_replacement(range(n), k))]
 
+MEMS = [None, 1, 2, 3, 5, 7, 1024]             # chunk sizes of _calc_ohvmat tried on every planted case
+
+def _planted(rng, kind, nparent=2, uniq=True, cls="Subset", k=None):
+    """population in which every individual ALONE holds the best block value of one block for trait 0 — so every member of a
+    parent tuple / selection (first, MIDDLE, last) decides the optimal value: all copies share one base haplotype; individual i
+    carries, in one phase (or all), the favourable allele of trait 0 at a marker q_i of block (i mod #blocks) that nobody else
+    carries; the other copies differ from the base only by unfavourable alleles.  One chromosome (blocks known to the generator
+    through the reference labelling), few blocks so that the doubled haploids can be enumerated."""
+    n = rng.choice([3, 4, 4, 5])
+    if kind == "ohv":
+        n = rng.choice([max(nparent, 3), 4, 5]) if nparent < 4 else rng.choice([4, 5])
+    p = rng.randint(max(n, 2), 7)
+    style = rng.choice(["even", "even", "grid", "grid", "cluster", "dup", "tiny"])
+    pos = _chrom_positions(rng, p, style)
+    nhap = p if rng.random() < 0.4 else rng.randint(1, p)
+    raw = _ref_labels(pos, [0], [p], [nhap])
+    lab = _ref_spread(raw, [0], [p], [nhap])
+    blocks = [[q for q in range(p) if lab[q] == j] for j in range(nhap)]
+    blocks = [b for b in blocks if b] or [list(range(p))]
+    m = rng.choice([1, 2, 2, 2, 3]); t = rng.choice([1, 1, 2, 3])
+    us = rng.choice(USCALES)
+    u = _effects(rng, p, t)
+    for r in u:
+        if r[0] == 0: r[0] = rng.choice([-1, 1]) * rng.randint(1, 16 * 256) / 256
+    fav = [1 if r[0] > 0 else 0 for r in u]
+    base = [rng.randint(0, 1) for _ in range(p)]
+    qs = []
+    for i in range(n):
+        b = blocks[i % len(blocks)]
+        free = [q for q in b if q not in qs] or b
+        qs.append(rng.choice(free))
+    for q in qs: base[q] = 1 - fav[q]
+    geno = [[list(base) for _ in range(n)] for _ in range(m)]
+    noisy = rng.random() < 0.5
+    for i in range(n):
+        ph = rng.randrange(m); allph = rng.random() < 0.3
+        for h in range(m):
+            if h == ph or allph: geno[h][i][qs[i]] = fav[qs[i]]
+            elif noisy:
+                for q in range(p):
+                    if q not in qs and rng.random() < 0.25: geno[h][i][q] = 1 - fav[q]
+    case = {"kind": kind, "pos": pos, "clen": [p], "styles": [style], "nhap": nhap, "pscale": 0, "planted": qs,
+            "geno": geno, "u": [[x * 2.0 ** us for x in r] for r in u], "uscale": us, "route": rng.choice(ROUTES)}
+    if case["route"] == "shuffle": case["perm"] = rng.sample(range(p), p)
+    if case["route"] == "select":
+        extra = rng.randint(1, 2)
+        case["extra_taxa"] = [[[rng.randint(0, 1) for _ in range(p)] for _ in range(extra)] for _ in range(m)]
+        order = list(range(n + extra)); rng.shuffle(order); case["taxa_order"] = order
+    if kind == "ohv":
+        if uniq and nparent > n: nparent = n
+        ncfg = len(_xmap(n, nparent, uniq))
+        ncross = rng.choice([1, 2, 3])
+        if cls == "Subset": ncross = min(ncross, ncfg)
+        case.update({"cls": cls, "nparent": nparent, "uniq": uniq, "mem": rng.choice(MEMS), "mems": list(MEMS), "ncross": ncross,
+                     "x": _ohv_x(rng, cls, ncfg, ncross), "ploidy_arg": rng.choice([1, 2, 3, 4])})
+    elif kind == "opv":
+        # selections of 1..4 individuals, distinct where the population allows, a rotation (the middle member becomes an end
+        # member and vice versa) and one with a repeated member
+        sel = [rng.sample(range(n), min(j, n)) for j in (1, 2, 3, 4)]
+        sel.append(sel[3][1:] + sel[3][:1]); sel.append(sel[2][::-1])
+        sel.append([sel[2][0], sel[2][1], sel[2][0], sel[2][-1]])
+        case["x"] = sel
+    elif kind == "gb":
+        k = k or rng.randint(1, 4)
+        a = rng.sample(range(n), min(k, n)); a += [rng.randrange(n) for _ in range(k - len(a))]
+        case["x"] = [a, a[1:] + a[:1], a[::-1], [rng.randrange(n) for _ in range(k)]]
+        case["nbest"] = rng.randint(1, min(k, n))
+    return case
+
 WITNESS = {"kind": "haplomat", "pos": [0.0, 1 / 64, 2 / 64, 3 / 64, 1.0], "clen": [5], "nhap": 3, "styles": ["cluster"],
            "geno": [[[1, 1, 1, 1, 1], [1, 0, 1, 0, 1]], [[0, 1, 1, 0, 1], [1, 1, 0, 0, 0]]], "u": [[1.0], [2.0], [-1.0], [0.5], [4.0]]}
 
@@ -233,7 +311,7 @@ ENTRY = {   # module -> {function or Class.member: how it is exercised}
     "pybrops.breed.prot.sel.prob.OptimalHaploidValueSelectionProblem": {
         "OptimalHaploidValueSelectionProblemMixin.nlatent": "kind ohv", "OptimalHaploidValueSelectionProblemMixin.ohvmat": "getter every ohv case, setter in the lifecycle block",
         "OptimalHaploidValueSelectionProblemMixin._calc_haplomat": "kind ohv (direct call)", "OptimalHaploidValueSelectionProblemMixin._calc_xmap": "kind ohv (protocol and factory)",
-        "OptimalHaploidValueSelectionProblemMixin._calc_ohvmat": "kind ohv: factory (mem=1024) and direct call with mem in {None,1,2,3,1024} and its own ploidy argument",
+        "OptimalHaploidValueSelectionProblemMixin._calc_ohvmat": "kind ohv: factory (mem=1024) and direct call with mem in {None,1,2,3,1024} and its own ploidy argument; planted cases: every chunk size of MEMS, nparent 1..4",
         **{"OptimalHaploidValue%sSelectionProblem.%s" % (c, f): "kind ohv, cls %s" % c for c in ("Subset", "Real", "Integer", "Binary")
            for f in ("__init__", "latentfn", "from_pgmat_gpmod")}},
     "pybrops.breed.prot.sel.prob.OptimalPopulationValueSelectionProblem": {
@@ -344,6 +422,18 @@ def gen_cases(rng, tier):
     for kind, n in N.items():
         for _ in range(n):
             cases.append(_one(rng, kind))
+    # planted populations (every individual alone holds the best block somewhere), SYSTEMATICALLY over the number of parents 1..4,
+    # unique_parents both ways and the four OHV encodings; selections of 1..4 individuals for OPV / genotype builder
+    reps = 1 if tier == "quick" else 12
+    for _ in range(reps):
+        for nparent in (1, 2, 3, 4):
+            for uniq in (True, False):
+                for cls in ("Subset", "Real", "Integer", "Binary"):
+                    cases.append(_planted(rng, "ohv", nparent, uniq, cls))
+        for k in (1, 2, 3, 4):
+            for _j in range(2):
+                cases.append(_planted(rng, "opv"))
+                cases.append(_planted(rng, "gb", k=k))
     return cases
 
 # ------------------------------------------------------------------ implementation driver
@@ -469,6 +559,11 @@ def _run_ohv(case, out, objs=None):
         pa = case.get("ploidy_arg", h.shape[0])
         o2 = _try(lambda: pcls._calc_ohvmat(pa, h, numpy.asarray(prob.decn_space_xmap), case["mem"]))
         out["ohvmat_mem"] = o2 if isinstance(o2, dict) else _fl(o2)
+        if "mems" in case:                                         # several chunk sizes on the same matrix and cross map
+            out["ohvmat_mems"] = []
+            for mm in case["mems"]:
+                o3 = _try(lambda: pcls._calc_ohvmat(pa, h, numpy.asarray(prob.decn_space_xmap), mm))
+                out["ohvmat_mems"].append(o3 if isinstance(o3, dict) else _fl(o3))
     dt = {"Subset": int, "Real": float, "Integer": int, "Binary": int}[case["cls"]]
     out["latent"] = [_fl(prob.latentfn(numpy.array(x, dtype=dt))) for x in case["x"]]
     if "route" in case:
@@ -718,6 +813,24 @@ def _empty_bin(case, out):
     lab = _ref_labels(case["pos"], st, sp, nb)
     return set(range(case["nhap"])) - set(lab) != set()
 
+def _dh_best(geno, u, runs, inds, i, cap=6000):
+    """the largest additive value (trait i, times the number of phases) among ALL doubled haploids that take each block from one
+    (phase, parent) copy of the individuals `inds` — by plain enumeration of the (#copies)^(#blocks) assemblies, computed from the
+    genotypes and effects alone (neither the haplotype matrix of the implementation nor the model is used); None: too many"""
+    m = len(geno); who = list(dict.fromkeys(inds))
+    copies = [geno[ph][d] for ph in range(m) for d in who]
+    if not copies or not runs or len(copies) ** len(runs) > cap: return None
+    den = 1
+    for r in u: den = den * r[i].denominator // math.gcd(den, r[i].denominator)
+    w = [int(r[i] * den) for r in u]
+    best = None
+    for src in itertools.product(range(len(copies)), repeat=len(runs)):
+        dh = []
+        for (a, e), c in zip(runs, src): dh += copies[c][a:e]
+        v = sum(g * x for g, x in zip(dh, w))
+        if best is None or v > best: best = v
+    return Fraction(m * best, den)
+
 def _F(h): return Fraction(_fh(h))
 
 def pred(case, out):
@@ -858,6 +971,7 @@ def _pred1(case, out):
         if len(ohv) != len(xm) or any(len(r) != t for r in ohv): bad.append("ohvmat shape"); return _dedup(bad)
         import random as _r
         rr = _r.Random(len(xm) * 7919 + nhap)
+        brute_rows = set(range(len(xm))) if len(xm) <= 10 else set([0, len(xm) - 1] + _r.Random(len(xm)).sample(range(len(xm)), 8))
         for s_, par in enumerate(xm):
             for i in range(t):
                 want = best_sum(par, i)
@@ -872,12 +986,26 @@ def _pred1(case, out):
                         src = geno[rr.randrange(m)][rr.choice(par)]
                         dh += src[a:e]
                     if m * total(dh, i) > _F(got): bad.append("a block-boundary doubled haploid exceeds the optimal haploid value")
+                    # ... and none of ALL of them does, while one attains it (enumeration on small cases; a sample of the crosses of a large map)
+                    if s_ in brute_rows:
+                        bf = _dh_best(geno, u, runs, par, i)
+                        if bf is not None and bf > _F(got):
+                            bad.append("brute force: some doubled haploid recombining only at block boundaries between the %d designated parents exceeds the optimal haploid value (nparent=%d)" % (len(par), len(par)))
+                        if bf is not None and bf < _F(got):
+                            bad.append("brute force: no doubled haploid recombining only at block boundaries attains the optimal haploid value")
         if "ohvmat_mem" in out:
             pa = case.get("ploidy_arg", m); om = out["ohvmat_mem"]
             if isinstance(om, dict): bad.append("_calc_ohvmat raised %s" % om["exc"])
             elif len(om) != len(ohv) or any((a is None) != (b is None) or (a is not None and _F(a) * m != _F(b) * pa)
                                             for ra, rb in zip(om, ohv) for a, b in zip(ra, rb)):
                 bad.append("_calc_ohvmat(ploidy=%d, mem=%r) is not %d/%d times the problem's ohvmat (depends on the chunk size or ignores its ploidy argument)" % (pa, case["mem"], pa, m))
+        for mm, om in zip(case.get("mems", []), out.get("ohvmat_mems", [])):
+            pa = case.get("ploidy_arg", m)
+            if isinstance(om, dict): bad.append("_calc_ohvmat(mem=%r) raised %s" % (mm, om["exc"]))
+            elif len(om) != len(ohv) or any((a is None) != (b is None) or (a is not None and _F(a) * m != _F(b) * pa)
+                                            for ra, rb in zip(om, ohv) for a, b in zip(ra, rb)):
+                bad.append("_calc_ohvmat with chunk size %r is not %d/%d times the problem's ohvmat (the result depends on the chunk size)" % (mm, pa, m))
+        if "mems" in case and len(out.get("ohvmat_mems", [])) != len(case["mems"]): bad.append("chunk-size runs missing")
         if out["nlatent"] != t: bad.append("nlatent")
         for x, lat in zip(case["x"], out["latent"]):
             for i in range(t):
@@ -899,6 +1027,11 @@ def _pred1(case, out):
                 if kind == "opv":
                     want = best_sum(x, i)
                     if want is not None and _F(lat[i]) != -want: bad.append("OPV latentfn is not -ploidy * sum over blocks of the best block among the selected")
+                    if len(runs) == nhap:
+                        bf = _dh_best(geno, u, runs, x, i)
+                        if bf is not None and bf != -_F(lat[i]):
+                            bad.append("brute force: the optimal population value of %d selected individuals is %s the best doubled haploid recombining only at block boundaries among ALL of them"
+                                       % (len(x), "below" if bf > -_F(lat[i]) else "above"))
                 else:
                     tot = Fraction(0); ok = True
                     for j in range(nhap):
@@ -938,7 +1071,9 @@ def describe(case, out):
          "raised": isinstance(nb, dict) or isinstance(out.get("hmat"), dict),
          "styles": "+".join(sorted(set(case.get("styles", [])))),
          "pscale": case.get("pscale", 0), "uscale": case.get("uscale", 0), "route": case.get("route", "-"),
-         "session": "session" in case, "phases": len(case["geno"]) if "geno" in case else 0}
+         "session": "session" in case, "phases": len(case["geno"]) if "geno" in case else 0,
+         "planted": "planted" in case, "nparent": case.get("nparent", "-"), "uniq": case.get("uniq", "-"),
+         "nselected": "-" if case["kind"] not in ("opv", "gb") else "/".join(str(k) for k in sorted({len(x) for x in case["x"]}))}
     if isinstance(nb, list) and "hbin" in out and "nblk" not in case:
         st, sp = _bounds(case["clen"]); tie = False
         for a, b, n in zip(st, sp, nb):
